@@ -21,6 +21,12 @@ func TestDebugSeed(t *testing.T) {
 		eng = engines[e]
 	}
 	prog := eng.Gen(prop, seed)
+	if os.Getenv("DBG_PRINT_PROG") != "" {
+		for i, o := range prog.Ops {
+			fmt.Printf("op %d: %s\n", i, o)
+		}
+		fmt.Printf("ondisk=%v ncoll=%d twob=%v faults=%v\n", prog.OnDisk, prog.NColl, prog.TwoBuckets, prog.Faults)
+	}
 	res := eng.Run(t, prog, true)
 	for _, l := range res.Log {
 		fmt.Println(l)
